@@ -43,6 +43,16 @@ pub open spec fn rfc_mech_parse(field: Seq<u8>) -> Option<ZmqMechanism> {
     else { None }
 }
 
+impl ZmqMechanism {
+// as_str: contract ASSUMED here (str octets), DISCHARGED by Kani `greeting_ser` (the names it writes are checked octet for octet)
+//@ item src/codec/mechanism.rs :: impl ZmqMechanism / fn as_str
+//@ attr
+//@|    #[verifier::external_body]
+//@ ret r
+//@ spec
+//@|        ensures str_bytes(r) == mech_name(*self),
+//@ end
+}
 impl vstd::std_specs::convert::TryFromSpecImpl<&[u8]> for ZmqMechanism {
     open spec fn obeys_try_from_spec() -> bool { false }
     open spec fn try_from_spec(v: &[u8]) -> Result<Self, CodecError> { arbitrary() }
